@@ -7,6 +7,7 @@
 -/
 import Miden.Lemmas.U64Tac
 import Miden.Lemmas.U64Pure
+import Miden.Lemmas.U64Mul
 namespace Miden.C16
 open Miden
 
@@ -126,6 +127,50 @@ theorem u64_gte_exact (vm : Vm) (bh bl ah al : Nat) (r : List Nat) (hs : vm.stac
     (h3 : bh < two32) (h2 : bl < two32) (h1 : ah < two32) (h0 : al < two32) (hr : 16 ≤ r.length) :
     stackRun Generated.u64_gte vm = .ok ((if u64of ah al ≥ u64of bh bl then 1 else 0) :: r) := by
   rw [stackRun_pure _ (by decide), hs]; exact u64_gte_pure bh bl ah al r h3 h2 h1 h0 hr
+
+
+/-! ### Multiplication, zero test, min / max -/
+
+/-- `wrapping_mul`: `[b_hi, b_lo, a_hi, a_lo] → [c_hi, c_lo]`, `c = (a · b) mod 2^64`, for all limbs < 2^32. -/
+theorem u64_wrapping_mul_exact (vm : Vm) (bh bl ah al : Nat) (r : List Nat) (hs : vm.stack = bh :: bl :: ah :: al :: r)
+    (h3 : bh < two32) (h2 : bl < two32) (h1 : ah < two32) (h0 : al < two32) (hr : 16 ≤ r.length) :
+    stackRun Generated.u64_wrapping_mul vm
+      = .ok ((u64of ah al * u64of bh bl) % two64 / two32 :: (u64of ah al * u64of bh bl) % two32 :: r) := by
+  rw [stackRun_pure _ (by decide), hs]; exact U64Mul.u64_wrapping_mul_pure bh bl ah al r h3 h2 h1 h0 hr
+
+/-- `overflowing_mul`: the full 128-bit product `a · b` in four 32-bit limbs, most significant first. -/
+theorem u64_overflowing_mul_exact (vm : Vm) (bh bl ah al : Nat) (r : List Nat) (hs : vm.stack = bh :: bl :: ah :: al :: r)
+    (h3 : bh < two32) (h2 : bl < two32) (h1 : ah < two32) (h0 : al < two32) (hr : 16 ≤ r.length) :
+    stackRun Generated.u64_overflowing_mul vm
+      = .ok ((u64of ah al * u64of bh bl) / 79228162514264337593543950336
+          :: (u64of ah al * u64of bh bl) / two64 % two32
+          :: (u64of ah al * u64of bh bl) / two32 % two32
+          :: (u64of ah al * u64of bh bl) % two32 :: r) := by
+  rw [stackRun_pure _ (by decide), hs]; exact U64Mul.u64_overflowing_mul_pure bh bl ah al r h3 h2 h1 h0 hr
+
+/-- `eqz`: `[a_hi, a_lo] → [a = 0]`. -/
+theorem u64_eqz_exact (vm : Vm) (ah al : Nat) (r : List Nat) (hs : vm.stack = ah :: al :: r)
+    (h1 : ah < two32) (h0 : al < two32) (hr : 16 ≤ r.length) :
+    stackRun Generated.u64_eqz vm = .ok ((if u64of ah al = 0 then 1 else 0) :: r) := by
+  rw [stackRun_pure _ (by decide), hs]; exact U64Mul.u64_eqz_pure ah al r h1 h0 hr
+
+/-- `min`: leaves the limbs of the smaller operand (`a` when `a ≤ b`, else `b`). -/
+theorem u64_min_exact (vm : Vm) (bh bl ah al : Nat) (r : List Nat) (hs : vm.stack = bh :: bl :: ah :: al :: r)
+    (h3 : bh < two32) (h2 : bl < two32) (h1 : ah < two32) (h0 : al < two32) (hr : 16 ≤ r.length) :
+    stackRun Generated.u64_min vm
+      = .ok (if u64of ah al ≤ u64of bh bl then ah :: al :: r else bh :: bl :: r) := by
+  rw [stackRun_pure _ (by decide), hs]; exact U64Mul.u64_min_pure bh bl ah al r h3 h2 h1 h0 hr
+
+/-- `max`: leaves the limbs of the larger operand (`a` when `a ≥ b`, else `b`). -/
+theorem u64_max_exact (vm : Vm) (bh bl ah al : Nat) (r : List Nat) (hs : vm.stack = bh :: bl :: ah :: al :: r)
+    (h3 : bh < two32) (h2 : bl < two32) (h1 : ah < two32) (h0 : al < two32) (hr : 16 ≤ r.length) :
+    stackRun Generated.u64_max vm
+      = .ok (if u64of ah al ≥ u64of bh bl then ah :: al :: r else bh :: bl :: r) := by
+  rw [stackRun_pure _ (by decide), hs]; exact U64Mul.u64_max_pure bh bl ah al r h3 h2 h1 h0 hr
+
+example : (stackRun Generated.u64_overflowing_mul
+    { stack := [4294967295, 4294967295, 4294967295, 4294967295] ++ List.replicate 16 9 }).toOption
+    = some ([4294967295, 4294967294, 0, 1] ++ List.replicate 16 9) := by decide
 
 -- Non-vacuity: the hypotheses are met by a concrete state and the procedure really runs.
 example : (stackRun Generated.u64_overflowing_add
